@@ -1,6 +1,7 @@
 """C33 Lifecycle hooks run once per saved change and their edits are saved.
 
-Model: P (explicit pk, Set of K via required K.parent -> cascade delete, Set of K via optional K.alt, m2m Set of T),
+Model: P (explicit pk, Set of K via required K.parent -> cascade delete, Set of K via optional K.alt, m2m Set of T,
+optional self-reference P.up / Set P.downs which the harness keeps acyclic),
 K (auto pk, unique harness tag) with subclass K2, T (explicit pk).  Every class defines all six hooks; every hook call
 and every SQL statement actually executed (sqlite3.Connection/Cursor subclasses passed through db.bind(factory=...))
 go to ONE ordered log together with begin/end markers of the program's operations.  Hook bodies are data
@@ -19,8 +20,10 @@ Oracle (from the log and plain sqlite3 reads only) -- see vlib/c33_harness.judge
     the reference model (all writes of program and hooks so far, including objects created in hooks);
     after commit / rollback / session end the tables read through a separate connection equal the committed model.
 Relative order among different objects is not asserted.  What after_* hooks change is not required to be saved by the
-operation in which they ran (only by a later flush/commit); what before_* hooks change is.  After obj.flush() only the row
-of the flushed object is compared.
+operation in which they ran (only by a later flush/commit); what before_* hooks change is.  After obj.flush() the rows of
+all objects that got a statement during the call (the flushed object and the unsaved objects it depends on, at any
+distance: K.parent / K.alt / P.up chains, trees, diamonds) are compared, unless a later hook of the same call wrote to
+them again.
 
 Two Pony refusals that belong to other properties are counted as rejected (rate in the evidence), never as violations:
 a before_delete hook that reads a value which is not in memory gets UnrepeatableReadError "Phantom object X disappeared"
@@ -355,8 +358,9 @@ MANIFEST = {
             'reference model of all program and hook writes after every flush and commit.',
     'note': 'Sampling beyond the grid; relative order of hooks of different objects is not asserted; histories are valid '
             '(no constraint failures, no exceptions in hooks), hooks never delete objects, one Database, SQLite only. '
-            'After obj.flush() the hook/statement pairing and the row of the flushed object are checked (objects its hooks '
-            'create or modify are verified at the next full flush/commit). Changes made by after_* hooks are only required '
+            'After obj.flush() the hook/statement pairing and the rows of the objects written by the call (flushed object and '
+            'its unsaved principals at any depth) are checked (objects its hooks create or modify otherwise are verified at '
+            'the next full flush/commit). Changes made by after_* hooks are only required '
             'to be saved by a later operation. before_delete hooks that read meet a Pony read refusal for values not in '
             'memory; such reads are counted as rejected.',
     'technique': 'bounded-exhaustive hook grid + hypothesis random histories; statement/hook log oracle + sqlite3 read-back against a reference model',
